@@ -187,6 +187,21 @@ pub fn ilv_programs() -> Vec<Program> {
     v.push(mk("k:upsert(remove-ttl);await;get || {clock+7s;tick}", vec![put_ttl(1, 30, 5000)], vec![vec![ups(1, true, Some(30), None, true), Op::Await { call: 0 }, get(1)], vec![adv(7000), Op::Tick]]));
     v.push(mk("k:get;get || {clock+3s;tick} sweeping b", vec![put(1, 30), put_ttl(2, 30, 1000)], vec![vec![get(1), get(1)], vec![adv(3000), Op::Tick]]));
     v.push(mk("k:put(ttl 20s);await;get || {clock+3s;tick} sweeping b || get(b)", vec![put_ttl(2, 30, 1000)], vec![vec![put_ttl(1, 30, 20_000), Op::Await { call: 0 }, get(1)], vec![adv(3000), Op::Tick], vec![get(2)]]));
+    // (iv) traffic on another key must not leave weight behind that later turns a put that fits into an evicting put:
+    // two puts of b in flight at once (one is refused), then c (k 40 + b 30 + c 10 <= W = 105: no memory pressure)
+    for (name, threads) in [
+        ("k:get || other:put_ttl(b);put_ttl(b) unawaited ; then put(c) that fits;get(k)", vec![vec![get(1)], vec![put_ttl(2, 30, 9000), put_ttl(2, 30, 9000)]]),
+        ("k:get || other:put(b);put_ttl(b) unawaited ; then put(c) that fits;get(k)", vec![vec![get(1)], vec![put(2, 30), put_ttl(2, 30, 9000)]]),
+        ("k:get || other:delete(b);put(b);delete(b) unawaited ; then put(c) that fits;get(k)", vec![vec![get(1)], vec![del(2), put(2, 30), del(2)]]),
+    ] {
+        let mut p = mk(name, vec![put(1, 40)], threads);
+        if name.contains("delete(b)") {
+            p.init.push(put(2, 30));
+        }
+        p.setup.weight = 105;
+        p.post = vec![put(3, 10), get(1)];
+        v.push(p);
+    }
     {
         let mut p = mk("k:put_ttl(9s);await;upsert(v);get;upsert(remove-ttl);await;get || other:put_ttl(b);delete(b) || {clock+3s;tick}", vec![], vec![
             vec![put_ttl(1, 30, 9000), Op::Await { call: 0 }, ups(1, true, None, None, false), get(1), ups(1, true, Some(30), None, true), Op::Await { call: 4 }, get(1)],
